@@ -4,7 +4,7 @@ Runs the quick check(s) of the seeded change's property (plus neighbours)
 against a scratch worktree with the change applied and records the verdicts in
 seeded/<id>/meta.json under "detection"."""
 import json, os, re, subprocess, sys, concurrent.futures
-NEIGH = {'C09':['C09','C10'],'C10':['C10','C09'],'C11':['C11','C09'],'C12':['C12','C14'],'C13':['C13','C12','C14'],'C14':['C14','C12'],'C16':['C16'],'C06':['C06'],'C03':['C03']}
+NEIGH = {'C09':['C09','C10'],'C10':['C10','C09'],'C11':['C11','C10','C09'],'C12':['C12','C14'],'C13':['C13','C12','C14'],'C14':['C14','C12'],'C16':['C16'],'C06':['C06'],'C03':['C03']}
 ids = sys.argv[1:] or sorted(os.listdir('/verif/seeded'))
 def one(sid):
     d = os.path.join('/verif/seeded', sid)
